@@ -1259,8 +1259,11 @@ def launch_analyse(cfg: dict[str, Any], run: Any) -> dict[str, Any]:
         if e["role"] == "launch" and e["phase"] not in ("failed",):
             anomalies.append(f"unfinished launch episode in phase {e['phase']}")
     truth = launch_truth(cfg, run)
+    truth["dead_inode"] = any(ev[0] == "lock-verify" and not ev[4] for ev in tr)
+    truth["lock_contended"] = any(ev[0] == "lock-flock" and not ev[4] for ev in tr)
     return {"eps": eps, "anomalies": anomalies, "launches": launches, "threads": len(launch_threads),
-            "violations": truth["violations"], "clobbered": truth["clobbered"], "raised": truth["raised"]}
+            "violations": truth["violations"], "clobbered": truth["clobbered"], "raised": truth["raised"],
+            "dead_inode": truth["dead_inode"], "lock_contended": truth["lock_contended"]}
 
 
 def launcher_monitor(idle: int, events: list[list[Any]]) -> dict[str, Any]:
@@ -1292,7 +1295,9 @@ def launch_judge(ctx: Any, cfg: dict[str, Any], run: Any, an: dict[str, Any], mo
         "launch:worker-exited" if any(e[0] == "exit" for ep in an["eps"].values() for e in ep["events"]) else "launch:no-exit",
         "launch:gc-unlinked-lock" if any(ep["state"][2] for ep in an["eps"].values()) else "launch:lock-kept",
         "launch:clobbered" if an["clobbered"] else "launch:no-clobber", f"launch:src:{cfg.get('src', 'gen')}",
-        *sorted({f"launch:raised:{x}" for x in an["raised"]})))
+        *sorted({f"launch:raised:{x}" for x in an["raised"]}),
+        *(["launch:dead-inode-lock-dropped"] if an["dead_inode"] else []),
+        *(["launch:lock-contended"] if an["lock_contended"] else [])))
     if run.status != "ok":
         ctx.fail(case, f"C33:launch:{run.status}", f"run ended with {run.status}: blocked {run.blocked}")
         return
@@ -1305,7 +1310,11 @@ def launch_judge(ctx: Any, cfg: dict[str, Any], run: Any, an: dict[str, Any], mo
     # ---- O (ground truth of the in-memory world)
     for kind, what in an["violations"]:
         if an["clobbered"]:
-            ctx.fail(case, f"C33:exit-unlink-clobber:{kind}", what + " — after an exiting worker's unlink removed its successor's socket")
+            # the open finding: keep a handful of witnesses, count the rest (ctx.failures is capped; new failures must fit)
+            seen = ctx.notes.setdefault("exit_unlink_clobber_hits", {})
+            seen[kind] = seen.get(kind, 0) + 1
+            if seen[kind] <= 4:
+                ctx.fail(case, f"C33:exit-unlink-clobber:{kind}", what + " — after an exiting worker's unlink removed its successor's socket")
         else:
             ctx.fail(case, f"C33:launcher:{kind}", what)
     # ---- K
@@ -1397,6 +1406,10 @@ LAUNCH_CORPUS: list[dict[str, Any]] = [
     # two commands: the opportunistic GC of each launch visits the other endpoint (lock, probe; unlink sock/meta/LOCK when stale)
     {"idle": 8, "launchers": [[_l("a")], [_l("b")]]},
     {"idle": 4, "launchers": [[_l("a"), ["sleep", 4], _l("a")], [["sleep", 4], _l("b")], [["sleep", 4], _l("a")]]},
+    # the unlink-while-waiting inode hazard: endpoint a is stale when launcher 1's GC visits it (unlinks a's LOCK FILE while
+    # holding it) and launcher 2 opens a's lock file around that moment — the st_nlink re-check must drop the dead inode
+    {"idle": 4, "launchers": [[_l("a")], [["sleep", 5], _l("b")], [["sleep", 5], _l("a")]]},
+    {"idle": 4, "launchers": [[_l("a")], [["sleep", 5], _l("b")], [["sleep", 5], _l("a")], [["sleep", 5], _l("a")]]},
     # a worker idling out exactly when the next launch arrives (exit vs probe vs stale unlink vs respawn)
     {"idle": 4, "launchers": [[_l("a"), ["sleep", 4], _l("a")]]},
     {"idle": 4, "launchers": [[_l("a")], [["sleep", 4], _l("a")], [["sleep", 4], _l("a")]]},
@@ -1472,9 +1485,9 @@ def run(ctx: Any) -> None:
     check_meta(ctx, T, L)
     total_loop = total_launch = 0
     # ---- (b)
-    per = ctx.budget(45, 700)
+    per = ctx.budget(36, 700)
     plan: list[tuple[dict[str, Any], int, int, int]] = [
-        (dict(c, src="corpus"), per, per // 4, ctx.budget(32, 160)) for c in LOOP_CORPUS]
+        (dict(c, src="corpus"), per, per // 4, ctx.budget(28, 160)) for c in LOOP_CORPUS]
     plan += [(dict(c, src="grace"), ctx.budget(6, 60), ctx.budget(2, 20), ctx.budget(8, 60)) for c in LOOP_GRACE]
     plan += [(gen_loop(rng), ctx.budget(30, 350), ctx.budget(8, 90), ctx.budget(24, 80)) for _ in range(ctx.budget(3, 10))]
     for cfg, dfs, rnd, stall in plan:
@@ -1483,8 +1496,8 @@ def run(ctx: Any) -> None:
             ctx.note("stopped_early", "accept loop: enough failing inputs found")
             break
     # ---- (a)
-    per = ctx.budget(60, 2000)
-    plan = [(dict(c, src="corpus"), per, per // 5, ctx.budget(32, 200)) for c in LAUNCH_CORPUS]
+    per = ctx.budget(45, 2000)
+    plan = [(dict(c, src="corpus"), per, per // 5, ctx.budget(28, 200)) for c in LAUNCH_CORPUS]
     plan += [(gen_launch(rng), ctx.budget(40, 900), ctx.budget(10, 200), ctx.budget(24, 120)) for _ in range(ctx.budget(3, 20))]
     for cfg, dfs, rnd, stall in plan:
         if _fresh_failures(ctx) >= STOP_AFTER:
